@@ -188,7 +188,7 @@ func c11Enumeration() []*Case {
 	return out
 }
 
-const ruleC11Chain = "two or three chained subscript steps (index / slice / union, small and extreme bounds) on matrices of 0..9 x 0..9 (and 3-level) arrays whose cells hold distinct numbers, so that the index list of an inner subscript differs from the outer one while the outer one is still being consumed; compared with SPEC exactly like C01. Non-trivial as in C01."
+const ruleC11Chain = "two or three chained subscript steps (index / slice / union, small and extreme bounds) on matrices of 0..9 x 0..9 (and 3-level) arrays whose cells hold distinct numbers, so that the index list of an inner subscript differs from the outer one while the outer one is still being consumed; one case in four places a single subscript step in context instead: followed by a name step at top level or after '..', or inside an '@' / '$' filter operand followed by a name step, over rows of which only some have the member; compared with SPEC exactly like C01. Non-trivial as in C01."
 
 func drawC11Chain(rt *rapid.T) *Case {
 	bound := func(label string) *int {
@@ -245,6 +245,58 @@ func drawC11Chain(rt *rapid.T) *Case {
 			st.Kind = gen.KSlice
 		}
 		return st
+	}
+	if gen.Uniform(rt, "context", 4) == 0 {
+		// the subscript step in another position of a path: followed by a name step (top level, and
+		// after '..'), or inside a filter operand ("@" or "$") followed by a name or index step; the
+		// rows are objects of which only some have the member, so WHICH elements the subscript
+		// selects decides the result
+		sub := mkStep()
+		name := gen.Step{Kind: gen.KName, Key: "k", Not: gen.NDot}
+		rowsN := gen.Uniform(rt, "rows", 10)
+		mkRow := func(i int) *gen.DNode {
+			if gen.Uniform(rt, "hask", 2) == 0 {
+				return gen.Obj().Set("k", gen.Num(float64(100+i)))
+			}
+			return gen.Obj().Set("j", gen.Num(float64(200+i)))
+		}
+		mkRows := func(base int) *gen.DNode {
+			a := gen.Arr()
+			n := rowsN
+			if gen.Uniform(rt, "ragged", 3) == 0 {
+				n = gen.Uniform(rt, "raggedlen", 10)
+			}
+			for i := 0; i < n; i++ {
+				a.Kids = append(a.Kids, mkRow(base*10+i))
+			}
+			return a
+		}
+		var p *gen.Path
+		var doc *gen.DNode
+		switch gen.Uniform(rt, "where", 4) {
+		case 0: // $<sub>.k
+			p = &gen.Path{Root: gen.RootDollar, Steps: []gen.Step{sub, name}}
+			doc = mkRows(1)
+		case 1: // $..<sub>.k
+			sub.Rec = true
+			p = &gen.Path{Root: gen.RootDollar, Steps: []gen.Step{sub, name}}
+			doc = gen.Obj().Set("x", mkRows(1)).Set("y", gen.Arr(mkRows(2)))
+		case 2: // $[?(@<sub>.k)] on an array of row arrays
+			q := &gen.Query{Kind: gen.QExists, P: &gen.Path{Root: gen.RootAt, Steps: []gen.Step{sub, name}}}
+			q.Not = gen.Uniform(rt, "neg", 4) == 0
+			p = &gen.Path{Root: gen.RootDollar, Steps: []gen.Step{{Kind: gen.KFilter, Q: q}}}
+			doc = gen.Arr()
+			for i := 0; i < 1+gen.Uniform(rt, "outer", 6); i++ {
+				doc.Kids = append(doc.Kids, mkRows(i+1))
+			}
+		default: // $.rows[?($.rows<sub>.k)]: all or nothing
+			rows := gen.Step{Kind: gen.KName, Key: "rows", Not: gen.NDot}
+			q := &gen.Query{Kind: gen.QExists, P: &gen.Path{Root: gen.RootDollar, Steps: []gen.Step{rows, sub, name}}}
+			p = &gen.Path{Root: gen.RootDollar, Steps: []gen.Step{rows, {Kind: gen.KFilter, Q: q}}}
+			doc = gen.Obj().Set("rows", mkRows(1))
+		}
+		r := gen.Render(p, gen.RapidStyle{T: rt})
+		return &Case{Path: r.Text, AST: p, Texts: r.Steps, Doc: doc, UseNumber: rapid.Bool().Draw(rt, "usenumber")}
 	}
 	depth := 2 + gen.Uniform(rt, "depth3", 4)/3
 	p := &gen.Path{Root: gen.RootDollar}
@@ -386,6 +438,12 @@ func checkC11Shared(c *Case, st *Stats) string {
 
 func drawC11(rt *rapid.T) *Case {
 	g := gen.NewG(rt, gen.PathOpts{})
+	n := rapid.IntRange(0, 40).Draw(rt, "len")
+	if gen.Uniform(rt, "long", 8) == 0 {
+		// long arrays: lengths around the powers of two where buffers and tables are typically sized
+		longs := []int{63, 64, 65, 127, 128, 129, 255, 256, 257, 258, 300, 511, 512, 513, 1000, 1023, 1024, 1025, 2049}
+		n = longs[gen.Uniform(rt, "longlen", len(longs))]
+	}
 	bound := func(label string) *int {
 		switch k := gen.Uniform(rt, label+"kind", 10); {
 		case k < 2:
@@ -397,7 +455,8 @@ func drawC11(rt *rapid.T) *Case {
 			v := int(rapid.Int64().Draw(rt, label+"64"))
 			return &v
 		}
-		edges := []int{math.MaxInt64, math.MinInt64, math.MaxInt64 - 1, math.MinInt64 + 1, 1 << 31, -(1 << 31), 1<<31 - 1, 1 << 32, 40, -40, 41, -41, 0}
+		edges := []int{math.MaxInt64, math.MinInt64, math.MaxInt64 - 1, math.MinInt64 + 1, 1 << 31, -(1 << 31), 1<<31 - 1, 1 << 32, 40, -40, 41, -41, 0,
+			n, -n, n + 1, -n - 1, n - 1, 1 - n, n / 2, -(n / 2), n - 10, 10 - n, 256, -256, 255, 257}
 		v := edges[gen.Uniform(rt, label+"edge", len(edges))]
 		return &v
 	}
@@ -442,6 +501,5 @@ func drawC11(rt *rapid.T) *Case {
 	p := &gen.Path{Root: gen.RootDollar, Steps: []gen.Step{st}}
 	_ = g
 	text := gen.Render(p, gen.RapidStyle{T: rt}).Text
-	n := rapid.IntRange(0, 40).Draw(rt, "len")
 	return &Case{Path: text, AST: p, Ints: []int{n, n, wrap}, Strs: []string{strings.TrimSpace(text)}}
 }
